@@ -215,7 +215,15 @@ func c20body(hist []string, plan []string, res *result, prov **genProvider) func
 					ev("event %s", h)
 					// the provider goroutine blocks until the resolver accepts the event, or gives up when Run is gone
 					w := gp.watcher
-					vs.GoDaemon("watcher-call", func() { w(&confmap.ChangeEvent{Error: e}) })
+					isErr := h == "cfgerr"
+					vs.GoDaemon("watcher-call", func() {
+						w(&confmap.ChangeEvent{Error: e})
+						// the resolver took the event (or Run is on its way out anyway): a configuration-watch ERROR is one of
+						// the statement's stopping events - once delivered, the run ends without anything further
+						if isErr && !res.returned && stopIssued == "" {
+							stopIssued = "configuration-watch error (accepted by the resolver)"
+						}
+					})
 				case "log":
 					// a provider with a goroutine of its own (a watcher, a poller) writes a log line through the logger the
 					// collector gave it - at any moment, also while the run loop swaps the logger's core at a (re)start
